@@ -114,6 +114,8 @@ package eth2wrap
 //@ after append#2: len(c.proposerDuties.requestedIdxs[epoch]) == len(alreadyRequestedIdxs)+len(newlyFetchedIdxs) && forall(n, 0, len(newlyFetchedIdxs), c.proposerDuties.requestedIdxs[epoch][len(alreadyRequestedIdxs)+n] == newlyFetchedIdxs[n])
 //@ after append#4: len(c.proposerDuties.duties[epoch]) == len(alreadySavedDuties)+len(newlyFetchedDuties) && forall(n, 0, len(newlyFetchedDuties), c.proposerDuties.duties[epoch][len(alreadySavedDuties)+n] == newlyFetchedDuties[n])
 //@ loop 1 invariant forall(r, 0, $i, !slices.Contains(alreadyRequestedIdxs, dutiesForEpoch.requestedIdxs[r]) ==> exists(n, 0, len(newlyFetchedIdxs), newlyFetchedIdxs[n] == dutiesForEpoch.requestedIdxs[r]))
+// F-C20b: a validator named twice in one request is amended once (its duties would otherwise be filed, and later served, twice)
+//@ loop 1 invariant forall(a, 0, len(newlyFetchedIdxs), forall(b, 0, a, newlyFetchedIdxs[a] != newlyFetchedIdxs[b]) && !slices.Contains(alreadyRequestedIdxs, newlyFetchedIdxs[a]))
 //@ loop 2 invariant forall(n, 0, $i, forall(j, 0, len(dutiesForEpoch.duties), dutiesForEpoch.duties[j].ValidatorIndex == newlyFetchedIdxs[n] ==> exists(i, 0, len(newlyFetchedDuties), newlyFetchedDuties[i] == dutiesForEpoch.duties[j])))
 //@ loop 3 invariant forall(n, 0, $i2, forall(j, 0, len(dutiesForEpoch.duties), dutiesForEpoch.duties[j].ValidatorIndex == newlyFetchedIdxs[n] ==> exists(i, 0, len(newlyFetchedDuties), newlyFetchedDuties[i] == dutiesForEpoch.duties[j])))
 //@ loop 3 invariant forall(j, 0, $i, dutiesForEpoch.duties[j].ValidatorIndex == idx ==> exists(i, 0, len(newlyFetchedDuties), newlyFetchedDuties[i] == dutiesForEpoch.duties[j]))
@@ -170,6 +172,8 @@ package eth2wrap
 //@ after append#2: len(c.attesterDuties.requestedIdxs[epoch]) == len(alreadyRequestedIdxs)+len(newlyFetchedIdxs) && forall(n, 0, len(newlyFetchedIdxs), c.attesterDuties.requestedIdxs[epoch][len(alreadyRequestedIdxs)+n] == newlyFetchedIdxs[n])
 //@ after append#4: len(c.attesterDuties.duties[epoch]) == len(alreadySavedDuties)+len(newlyFetchedDuties) && forall(n, 0, len(newlyFetchedDuties), c.attesterDuties.duties[epoch][len(alreadySavedDuties)+n] == newlyFetchedDuties[n])
 //@ loop 1 invariant forall(r, 0, $i, !slices.Contains(alreadyRequestedIdxs, dutiesForEpoch.requestedIdxs[r]) ==> exists(n, 0, len(newlyFetchedIdxs), newlyFetchedIdxs[n] == dutiesForEpoch.requestedIdxs[r]))
+// F-C20b: a validator named twice in one request is amended once (its duties would otherwise be filed, and later served, twice)
+//@ loop 1 invariant forall(a, 0, len(newlyFetchedIdxs), forall(b, 0, a, newlyFetchedIdxs[a] != newlyFetchedIdxs[b]) && !slices.Contains(alreadyRequestedIdxs, newlyFetchedIdxs[a]))
 //@ loop 2 invariant forall(n, 0, $i, forall(j, 0, len(dutiesForEpoch.duties), dutiesForEpoch.duties[j].ValidatorIndex == newlyFetchedIdxs[n] ==> exists(i, 0, len(newlyFetchedDuties), newlyFetchedDuties[i] == dutiesForEpoch.duties[j])))
 //@ loop 3 invariant forall(n, 0, $i2, forall(j, 0, len(dutiesForEpoch.duties), dutiesForEpoch.duties[j].ValidatorIndex == newlyFetchedIdxs[n] ==> exists(i, 0, len(newlyFetchedDuties), newlyFetchedDuties[i] == dutiesForEpoch.duties[j])))
 //@ loop 3 invariant forall(j, 0, $i, dutiesForEpoch.duties[j].ValidatorIndex == idx ==> exists(i, 0, len(newlyFetchedDuties), newlyFetchedDuties[i] == dutiesForEpoch.duties[j]))
@@ -226,6 +230,8 @@ package eth2wrap
 //@ after append#2: len(c.syncDuties.requestedIdxs[epoch]) == len(alreadyRequestedIdxs)+len(newlyFetchedIdxs) && forall(n, 0, len(newlyFetchedIdxs), c.syncDuties.requestedIdxs[epoch][len(alreadyRequestedIdxs)+n] == newlyFetchedIdxs[n])
 //@ after append#4: len(c.syncDuties.duties[epoch]) == len(alreadySavedDuties)+len(newlyFetchedDuties) && forall(n, 0, len(newlyFetchedDuties), c.syncDuties.duties[epoch][len(alreadySavedDuties)+n] == newlyFetchedDuties[n])
 //@ loop 1 invariant forall(r, 0, $i, !slices.Contains(alreadyRequestedIdxs, dutiesForEpoch.requestedIdxs[r]) ==> exists(n, 0, len(newlyFetchedIdxs), newlyFetchedIdxs[n] == dutiesForEpoch.requestedIdxs[r]))
+// F-C20b: a validator named twice in one request is amended once (its duties would otherwise be filed, and later served, twice)
+//@ loop 1 invariant forall(a, 0, len(newlyFetchedIdxs), forall(b, 0, a, newlyFetchedIdxs[a] != newlyFetchedIdxs[b]) && !slices.Contains(alreadyRequestedIdxs, newlyFetchedIdxs[a]))
 //@ loop 2 invariant forall(n, 0, $i, forall(j, 0, len(dutiesForEpoch.duties), dutiesForEpoch.duties[j].ValidatorIndex == newlyFetchedIdxs[n] ==> exists(i, 0, len(newlyFetchedDuties), newlyFetchedDuties[i] == dutiesForEpoch.duties[j])))
 //@ loop 3 invariant forall(n, 0, $i2, forall(j, 0, len(dutiesForEpoch.duties), dutiesForEpoch.duties[j].ValidatorIndex == newlyFetchedIdxs[n] ==> exists(i, 0, len(newlyFetchedDuties), newlyFetchedDuties[i] == dutiesForEpoch.duties[j])))
 //@ loop 3 invariant forall(j, 0, $i, dutiesForEpoch.duties[j].ValidatorIndex == idx ==> exists(i, 0, len(newlyFetchedDuties), newlyFetchedDuties[i] == dutiesForEpoch.duties[j]))
